@@ -68,6 +68,7 @@ type Ty struct {
 	Br   []Branch
 	From Mode
 	Name string
+	Bare bool // the head mode annotation is not written (see BareHeads)
 }
 
 func Unit(m Mode) *Ty                { return &Ty{K: KUnit, M: m} }
@@ -153,7 +154,7 @@ func paren(t *Ty) string {
 // String prints with an explicit head mode annotation (omitted for shifts, whose mode is
 // explicit in the shift itself).
 func (t *Ty) String() string {
-	if t.IsShift() {
+	if t.IsShift() || t.Bare {
 		return t.Inner()
 	}
 	return t.M.String() + " " + t.Inner()
